@@ -234,3 +234,15 @@ package actionlint
 //@ func (*parser).parseStep
 //@   loop "range p.parseMapping(\"element of \\\"steps\\\" section\", n, false, true)":
 //@     at_call [C07] (*parser).errorfAt: pos == kv.key.Pos
+
+// C13: mandatory keys of the workflow_call specification: an input without `type` and an output without
+// `value` are reported at the name of the input / output - exactly then, whatever other keys are present
+//@ func (*parser).parseWorkflowCallEvent
+//@   loop "range inputs":
+//@     body_calls [C13] (*parser).errorfAt iff !sawType
+//@     at_call [C13] (*parser).errorfAt: pos == name.Pos
+//@   loop "range p.parseMapping(\"input of workflow_call event\", spec, true, true)":
+//@     invariant [C13] sawType <==> (exists j :: 0 <= j && j <= range_i && range_x[j].id == "type")
+//@   loop "range outputs":
+//@     body_calls [C13] (*parser).errorfAt iff output.Value == nil
+//@     at_call [C13] (*parser).errorfAt: pos == name.Pos
